@@ -168,14 +168,43 @@ fn huge_case(k: u64) -> Case {
     }
     Case { prop: "C17".into(), gen: "L-huge".into(), text, input: InputKind::Str, client, ..Case::default() }
 }
+/// An anchored document, then N filler documents, then a document aliasing the anchor: N around
+/// the widths of small counters (a per-document stamp or generation that wraps).
+pub const DISTANCES: [usize; 10] = [1, 254, 255, 256, 257, 32_767, 32_768, 32_769, 65_535, 65_536];
+pub fn distance_count() -> u64 {
+    (DISTANCES.len() * 3) as u64
+}
+fn distance_case(k: u64) -> Case {
+    let client = [Client::PeekNext, Client::LoadMulti, Client::LoadSingle][(k % 3) as usize].clone();
+    let n = DISTANCES[((k / 3) % DISTANCES.len() as u64) as usize];
+    let mut text = String::with_capacity(6 * n + 32);
+    text.push_str("--- &a x\n");
+    for _ in 0..n.saturating_sub(1) {
+        text.push_str("--- y\n");
+    }
+    text.push_str("--- *a\n");
+    Case {
+        prop: "C17".into(),
+        gen: "L-distance".into(),
+        text,
+        input: InputKind::Str,
+        peeks: if client == Client::PeekNext { vec![0, 1, 0] } else { vec![] },
+        client,
+        ..Case::default()
+    }
+}
 pub fn probe_count() -> u64 {
-    (PROBE_FAMILIES.len() * PROBE_SIZES.len() * PROBE_TAILS.len() * 3) as u64 + deep_count() + huge_count()
+    (PROBE_FAMILIES.len() * PROBE_SIZES.len() * PROBE_TAILS.len() * 3) as u64 + deep_count() + huge_count() + distance_count()
 }
 fn probe_case(k: u64) -> Case {
     if k < huge_count() {
         return huge_case(k);
     }
     let k = k - huge_count();
+    if k < distance_count() {
+        return distance_case(k);
+    }
+    let k = k - distance_count();
     if k < deep_count() {
         let client = [Client::PeekNext, Client::LoadMulti, Client::LoadSingle][(k % 3) as usize].clone();
         let j = k / 3;
